@@ -35,7 +35,7 @@ def shard_setup(obs) -> None:
 
 
 def gen_cases(tier: str, seed: int):
-    n = {"quick": 300, "thorough": 4000}[tier]
+    n = {"quick": 300, "thorough": 40000}[tier]
     rng = np.random.default_rng([seed, 7])
     for k in zoo.TRACTABLE:
         for mk in zoo.CONST_METRICS:
